@@ -225,6 +225,8 @@ def _cfg_kfold(tier, seed):
             for shuffle, balance in ((False, True), (True, False)):
                 out.append({"n": 4, "blocks": 3, "n_splits": n_splits, "shuffle": shuffle, "balance": balance, "seed": 3})
         out.append({"n": 5, "blocks": 3, "n_splits": 2, "shuffle": False, "balance": True, "seed": None})
+        out.append({"n": 5, "blocks": 3, "n_splits": 2, "shuffle": True, "balance": True, "seed": 8})
+        out.append({"n": 5, "blocks": 3, "n_splits": 2, "shuffle": True, "balance": True, "seed": 1})
     else:
         for n, blocks in ((5, 4), (6, 3), (6, 4)):
             for n_splits in range(2, blocks + 1):
